@@ -182,6 +182,7 @@ class Explorer(object):
         self.domains = {}          # Int constant name -> list of still-possible values (over-approximation)
         self.domain_decided = 0
         self.incremental_timeout_ms = 15000
+        self.fresh_strategy = 'timeout-first'
         self._answered = self.solver
         self.solver_s = 0.0
         self.requires = 0         # assertions discharged
@@ -216,14 +217,36 @@ class Explorer(object):
         self._answered = self.solver
         self.queries += 1
         if r == z3.unknown:
-            fresh = z3.Solver()
-            fresh.set('rlimit', RLIMIT_PER_MS * self.solver_timeout_ms)
-            self._keep.append(fresh)        # never freed while the process lives
-            fresh.add(self.solver.assertions())
-            fresh.add(*assumptions)
-            r = fresh.check()
-            self._answered = fresh
-            self.fresh_queries += 1
+            # portfolio of two fresh solvers on the same formula:
+            #  'timeout' : z3 wraps its strategy in a wall-clock budget (what settled the mangle queries)
+            #  'rlimit'  : default strategy under a resource limit, stopped from outside by interrupt()
+            #              (settles the air/vacuum queries in 17 s that the first leaves unknown after 300 s)
+            order = ('rlimit', 'timeout') if self.fresh_strategy == 'rlimit-first' else ('timeout', 'rlimit')
+            budget_ms = self.solver_timeout_ms
+            for k, strat in enumerate(order):
+                fresh = z3.Solver()
+                # (do not keep these solvers alive: retaining them slowed later queries on the same context dramatically)
+                fresh.add(self.solver.assertions())
+                fresh.add(*assumptions)
+                share = budget_ms if k == 0 else budget_ms // 2
+                timer = None
+                if strat == 'timeout':
+                    fresh.set('timeout', int(share))
+                else:
+                    fresh.set('rlimit', RLIMIT_PER_MS * int(share))
+                    import threading
+                    timer = threading.Timer(share / 1000.0, fresh.ctx.interrupt)
+                    timer.daemon = True
+                    timer.start()
+                try:
+                    r = fresh.check()
+                finally:
+                    if timer is not None:
+                        timer.cancel()
+                self._answered = fresh
+                self.fresh_queries += 1
+                if r != z3.unknown:
+                    break
         self.solver_s += time.time() - t
         if r == z3.unknown:
             raise Inconclusive('solver unknown (%s) in %s' % (self._answered.reason_unknown(), self.name))
